@@ -1,6 +1,7 @@
 """Property id -> check function."""
 import p_channel
 import p_halflock
+import p_registry
 
 
 def c01(chk, tier):
@@ -9,11 +10,20 @@ def c01(chk, tier):
                          "distinct abstract event traces; model: TLC exhaustive on HalfLock.tla with "
                          "the constants extracted from the running code")
     p_halflock.run_halflock(chk, tier)
+    p_registry.run_registry(chk, tier)
+
+
+def c02(chk, tier):
+    chk.extra["rule"] = ("real code: every schedule (DFS, preemption-bounded where stated, deliveries nested on "
+                         "the mutating thread) of small registry scenarios; a case is one schedule, distinct = "
+                         "distinct abstract event traces; oracle = TraceRegistryAbs.tla via TLC")
+    p_registry.run_registry(chk, tier)
 
 
 def c18(chk, tier):
     chk.extra["rule"] = "as C01, plus liveness (FairSpec) on the fine model and livelock/deadlock events on real schedules"
     p_halflock.run_halflock(chk, tier, want_liveness=True)
+    p_registry.run_registry(chk, tier)
 
 
 def c06(chk, tier):
@@ -25,4 +35,4 @@ def c06(chk, tier):
     p_channel.run_channel(chk, tier)  # invariants and event classes selected by chk.pid
 
 
-CHECKS = {"C01": c01, "C18": c18, "C06": c06, "C07": c06, "C08": c06}
+CHECKS = {"C02": c02, "C04": c02, "C05": c02, "C03": c02, "C01": c01, "C18": c18, "C06": c06, "C07": c06, "C08": c06}
